@@ -1323,9 +1323,11 @@ func (e *KeyShareExtension) UnmarshalJSON(b []byte) error {
 		}
 
 		if groupID, ok := dicttls.DictSupportedGroupsNameIndexed[clientShare.Group]; ok {
+			// like the raw-bytes importer (Write), keep only the group: the key exchange of a
+			// captured hello is per-connection material whose private key is unknown, and a
+			// non-empty Data would be sent as is instead of a freshly generated share
 			ks := KeyShare{
 				Group: CurveID(groupID),
-				Data:  clientShare.KeyExchange,
 			}
 			e.KeyShares = append(e.KeyShares, ks)
 		} else {
